@@ -1,0 +1,104 @@
+//! Verification hooks: thin `pub` wrappers around crate-private items so that an external
+//! harness crate can drive them. Compiled only with `--cfg zcash_librustzcash_verif`; adds no
+//! behaviour. This file is a child module of `verify` so that it can reach its private items.
+
+use alloc::vec::Vec;
+
+use super::{Error, Kind, Node, is_valid_solution, is_valid_solution_recursive, validate_subtrees as vs};
+use crate::{
+    minimal::{expand_array, indices_from_minimal},
+    params::Params,
+};
+
+/// `Params::new(n, k)` and the derived quantities, or `None` if the parameters are rejected.
+///
+/// Returns `(indices_per_hash_output, hash_output, collision_bit_length, collision_byte_length)`.
+pub fn params(n: u32, k: u32) -> Option<(u32, u8, usize, usize)> {
+    let p = Params::new(n, k)?;
+    Some((
+        p.indices_per_hash_output(),
+        p.hash_output(),
+        p.collision_bit_length(),
+        p.collision_byte_length(),
+    ))
+}
+
+/// `Params::new` followed by `indices_from_minimal`.
+pub fn decode_indices(n: u32, k: u32, minimal: &[u8]) -> Option<Option<Vec<u32>>> {
+    let p = Params::new(n, k)?;
+    Some(indices_from_minimal(p, minimal))
+}
+
+/// `expand_array`.
+pub fn expand(vin: &[u8], bit_len: usize, byte_pad: usize) -> Vec<u8> {
+    expand_array(vin, bit_len, byte_pad)
+}
+
+/// A tree node with caller-chosen contents.
+pub struct VNode(Node);
+
+impl VNode {
+    pub fn from_parts(hash: Vec<u8>, indices: Vec<u32>) -> Self {
+        VNode(Node { hash, indices })
+    }
+    /// `Node::new` for leaf index `i` under the state initialised for `(n, k, input, nonce)`.
+    pub fn leaf(n: u32, k: u32, input: &[u8], nonce: &[u8], i: u32) -> Option<Self> {
+        let p = Params::new(n, k)?;
+        let mut state = super::initialise_state(p.n, p.k, p.hash_output());
+        state.update(input);
+        state.update(nonce);
+        Some(VNode(Node::new(&p, &state, i)))
+    }
+    pub fn hash(&self) -> &[u8] {
+        &self.0.hash
+    }
+    pub fn indices(&self) -> &[u32] {
+        &self.0.indices
+    }
+    pub fn is_zero(&self, len: usize) -> bool {
+        self.0.is_zero(len)
+    }
+    /// `Node::from_children(a, b, trim)`.
+    pub fn from_children(a: VNode, b: VNode, trim: usize) -> VNode {
+        VNode(Node::from_children(a.0, b.0, trim))
+    }
+}
+
+fn kind_code(k: &Kind) -> u8 {
+    match k {
+        Kind::Collision => 1,
+        Kind::OutOfOrder => 2,
+        Kind::DuplicateIdxs => 3,
+        Kind::NonZeroRootHash => 4,
+        Kind::InvalidParams => 5,
+    }
+}
+
+/// `validate_subtrees`; 0 = Ok, otherwise the error kind code (1 = Collision, 2 = OutOfOrder,
+/// 3 = DuplicateIdxs). `None` if the parameters are rejected.
+pub fn validate_subtrees(n: u32, k: u32, a: &VNode, b: &VNode) -> Option<u8> {
+    let p = Params::new(n, k)?;
+    Some(match vs(&p, &a.0, &b.0) {
+        Ok(()) => 0,
+        Err(kind) => kind_code(&kind),
+    })
+}
+
+/// `is_valid_solution` with the outcome as a code: 0 = Ok, 1 = Collision, 2 = OutOfOrder,
+/// 3 = DuplicateIdxs, 4 = NonZeroRootHash, 5 = InvalidParams.
+pub fn is_valid_solution_kind(n: u32, k: u32, input: &[u8], nonce: &[u8], soln: &[u8]) -> u8 {
+    match is_valid_solution(n, k, input, nonce, soln) {
+        Ok(()) => 0,
+        Err(Error(kind)) => kind_code(&kind),
+    }
+}
+
+/// `is_valid_solution_recursive` (tree validation plus root check) over explicit indices; same
+/// outcome codes. `None` if the parameters are rejected.
+pub fn validate_indices(n: u32, k: u32, input: &[u8], nonce: &[u8], indices: &[u32]) -> Option<u8> {
+    let p = Params::new(n, k)?;
+    Some(match is_valid_solution_recursive(p, input, nonce, indices) {
+        Ok(()) => 0,
+        Err(Error(kind)) => kind_code(&kind),
+    })
+}
